@@ -28,9 +28,24 @@
       murmur hash [h] as the probe key (the hash is an INPUT of [run_join]; the
       engine hashes Value.Serialize(), which is injective on non-NULL values of one
       type, so [h] is an arbitrary function of the value); every pair is then
-      re-checked with CompareEquals (IsValidCombination): collisions are harmless,
-      but two keys that CompareEquals calls equal and that serialise differently
-      (float32 +0.0 / -0.0) are paired only if their hashes collide;
+      re-checked with CompareEquals (IsValidCombination): collisions are harmless.
+      Two keys that CompareEquals calls equal and that serialise differently are
+      float32 +0.0 / -0.0: HashValue hashes a float key equal to zero as +0.0
+      ([canon_key]; /repo 47a18be).  [run_join_gen false] is the engine before that
+      fix (the two zeros are paired only if their hashes collide), kept for the
+      refutation in Props/C11.v; [run_join] = [run_join_gen true];
+    - a WHERE conjunct comparing two columns of ONE table is part of that table's
+      scan predicate (findBestScan's relatedOps; /repo e79176f): the leaf plan is
+      Projection(Selection(scan, literal comparisons AND column comparisons)).
+      The reference language (SqlRef.jpred) has column EQUALITY only, so the model
+      covers same-table equalities [t.x = t.y] ([table_eqs]); Query.v's predicate
+      language has no column-column comparison, so the model keeps the Query.v
+      sub-plan for the literal comparisons and puts the column equalities into a
+      Selection ABOVE the leaf's Projection ([leaf_select]).  The Projection keeps
+      every column WHERE touches and both evaluate CompareEquals on the same values,
+      so the two positions give the same rows; an index range scan that Query.v
+      leaves bare (a single [=] on the indexed column) is re-checked by the
+      engine's Selection with that [=], which holds for every row the scan returns;
     - Index.ScanKey(k) returns the entries whose key equals k in the reference
       order (C18 *_scankey; a NULL is stored under the zero value, see Query.v) in
       table order; PointScanWithIndexExecutor aborts the transaction when a fetched
@@ -168,11 +183,19 @@ Fixpoint eng_jeval (cols : list nat) (r : row) (e : jpred) : bool :=
 (** HashJoinExecutor: build rows with a NULL key are not inserted, probe rows with
     a NULL key are skipped; for every probe row, the build rows of its bucket (in
     insertion order) that pass IsValidCombination. *)
-Definition hash_join (h : value -> N) (kl kr : row -> value) (L R : table) : table :=
+(** hash.HashValue: a float key equal to zero is hashed as +0.0 ([cz]: with that fix) *)
+Definition canon_key (cz : bool) (v : value) : value :=
+  match v with
+  | VFloat u => if cz && N.eqb u two31 then VFloat 0 else v
+  | _ => v
+  end.
+
+Definition hash_join (cz : bool) (h : value -> N) (kl kr : row -> value) (L R : table) : table :=
   flat_map (fun rr =>
     if is_null (kr rr) then []
     else flat_map (fun lr =>
-           if negb (is_null (kl lr)) && N.eqb (h (kl lr)) (h (kr rr)) && cv_eq (kl lr) (kr rr)
+           if negb (is_null (kl lr)) && N.eqb (h (canon_key cz (kl lr))) (h (canon_key cz (kr rr)))
+              && cv_eq (kl lr) (kr rr)
            then [lr ++ rr] else []) L) R.
 
 (** PointScanWithIndexExecutor on the index of column [c] (type [ty]) with key [k] *)
@@ -200,17 +223,17 @@ Fixpoint index_join (probe : value -> option table) (key : row -> value) (L : ta
   end.
 
 (** [None]: the statement aborts (a sub-plan or a point scan met a NULL index entry). *)
-Fixpoint run_join (h : value -> N) (schs : list schema) (ts : list table) (p : jplan) : option table :=
+Fixpoint run_join_gen (cz : bool) (h : value -> N) (schs : list schema) (ts : list table) (p : jplan) : option table :=
   let ws := widths schs in
   match p with
   | JScan i pl => run_plan pl (nth i ts [])
   | JHash l r lc rc =>
-      match run_join h schs ts l, run_join h schs ts r with
-      | Some L, Some R => Some (hash_join h (fun x => lookup (jcols ws l) x lc) (fun x => lookup (jcols ws r) x rc) L R)
+      match run_join_gen cz h schs ts l, run_join_gen cz h schs ts r with
+      | Some L, Some R => Some (hash_join cz h (fun x => lookup (jcols ws l) x lc) (fun x => lookup (jcols ws r) x rc) L R)
       | _, _ => None
       end
   | JIndex l i lc rc =>
-      match run_join h schs ts l with
+      match run_join_gen cz h schs ts l with
       | Some L =>
           let c := local_of ws rc in
           index_join (fun k => point_scan c (col_type (nth i schs []) c) k (nth i ts []))
@@ -218,21 +241,25 @@ Fixpoint run_join (h : value -> N) (schs : list schema) (ts : list table) (p : j
       | None => None
       end
   | JNest l r =>
-      match run_join h schs ts l, run_join h schs ts r with
+      match run_join_gen cz h schs ts l, run_join_gen cz h schs ts r with
       | Some L, Some R => Some (cross L R)
       | _, _ => None
       end
   | JSelect q e =>
-      match run_join h schs ts q with
+      match run_join_gen cz h schs ts q with
       | Some rows => Some (filter (fun r => eng_jeval (jcols ws q) r e) rows)
       | None => None
       end
   | JProject q cols =>
-      match run_join h schs ts q with
+      match run_join_gen cz h schs ts q with
       | Some rows => Some (map (jproject (jcols ws q) cols) rows)
       | None => None
       end
   end.
+
+(** the engine as it is *)
+Definition run_join (h : value -> N) (schs : list schema) (ts : list table) (p : jplan) : option table :=
+  run_join_gen true h schs ts p.
 
 (** * findBestJoinInner *)
 
@@ -322,8 +349,27 @@ Definition finish (ws : list nat) (sl : list nat) (p : jplan) : jplan :=
 Definition opt_map2 {A B C} (f : A -> B -> C) (a : option A) (b : option B) : option C :=
   match a, b with Some x, Some y => Some (f x y) | _, _ => None end.
 
+(** The equalities [t.x = t.y] between two columns of table [i] (relatedOps of its
+    findBestScan), in the order the conjunct walk meets them. *)
+Definition table_eqs (ws : list nat) (i : nat) (w : jpred) : list (nat * nat) :=
+  filter (fun e => Nat.eqb (table_of ws (fst e)) i && Nat.eqb (table_of ws (snd e)) i) (jeqs w).
+
+(** scanExp over them: first AND second AND ... (left-nested), nil if none *)
+Definition scan_conj (l : list jpred) : option jpred :=
+  match l with
+  | [] => None
+  | x :: rest => Some (fold_left JAnd rest x)
+  end.
+
+(** the leaf's Selection on its same-table equalities (see the header for its position) *)
+Definition leaf_select (ws : list nat) (i : nat) (w : jpred) (q : jplan) : jplan :=
+  match scan_conj (map (fun e => JColEq (fst e) (snd e)) (table_eqs ws i w)) with
+  | Some e => JSelect q e
+  | None => q
+  end.
+
 Definition leaves (schs : list schema) (w : jpred) (sl : list nat) (i : nat) : option (list jplan) :=
-  option_map (map (JScan i)) (scan_candidates schs w sl i).
+  option_map (map (fun pl => leaf_select (widths schs) i w (JScan i pl))) (scan_candidates schs w sl i).
 
 (** Every plan the dynamic programme can return for two / three tables
     ([None]: more tables than modelled, or the panic on OR of findBestScan, which a
@@ -358,18 +404,26 @@ Definition run_join_select (h : value -> N) (schs : list schema) (w : jpred) (sl
 
 (** * Plan shapes (what the harness command [plan] prints, sub-plan details erased) *)
 
-Inductive shape :=
-| ShScan | ShHash (l r : shape) | ShIndex (l : shape) | ShNest (l r : shape)
-| ShSelect (s : shape) | ShProject (s : shape).
+Inductive jshape :=
+| ShScan | ShHash (l r : jshape) | ShIndex (l : jshape) | ShNest (l r : jshape)
+| ShSelect (s : jshape) | ShProject (s : jshape).
 
-Fixpoint shape_of (p : jplan) : shape :=
+(** a plan node over one table only (no join below it) prints as a scan *)
+Fixpoint has_join (p : jplan) : bool :=
+  match p with
+  | JScan _ _ => false
+  | JHash _ _ _ _ | JIndex _ _ _ _ | JNest _ _ => true
+  | JSelect q _ | JProject q _ => has_join q
+  end.
+
+Fixpoint jshape_of (p : jplan) : jshape :=
   match p with
   | JScan _ _ => ShScan
-  | JHash l r _ _ => ShHash (shape_of l) (shape_of r)
-  | JIndex l _ _ _ => ShIndex (shape_of l)
-  | JNest l r => ShNest (shape_of l) (shape_of r)
-  | JSelect q _ => ShSelect (shape_of q)
-  | JProject q _ => ShProject (shape_of q)
+  | JHash l r _ _ => ShHash (jshape_of l) (jshape_of r)
+  | JIndex l _ _ _ => ShIndex (jshape_of l)
+  | JNest l r => ShNest (jshape_of l) (jshape_of r)
+  | JSelect q _ => if has_join q then ShSelect (jshape_of q) else ShScan
+  | JProject q _ => if has_join q then ShProject (jshape_of q) else ShScan
   end.
 
 (** the tables in the order the plan joins them, and the join algorithms it uses *)
@@ -400,11 +454,55 @@ Definition key_cols (w : jpred) : list nat := flat_map (fun e => [fst e; snd e])
 Definition col_has (schs : list schema) (ts : list table) (f : value -> bool) (c : nat) : bool :=
   existsb (fun r => f (nth (local_of (widths schs) c) r VNull)) (nth (table_of (widths schs) c) ts []).
 
-(** F-NULL-JOIN: some join-key column holds a NULL *)
+(** F-NULL-JOIN: some column of an equality [column = column] (between two tables or inside one) holds a NULL *)
 Definition has_null_key (schs : list schema) (ts : list table) (w : jpred) : bool :=
   existsb (col_has schs ts is_null) (key_cols w).
 
-(** some join-key column holds the float -0.0 (bit pattern 0x80000000) *)
+(** some join-key column holds the float -0.0 (bit pattern 0x80000000): mattered before /repo 47a18be *)
 Definition is_neg_zero (v : value) : bool := match v with VFloat u => N.eqb u two31 | _ => false end.
 Definition has_neg_zero_key (schs : list schema) (ts : list table) (w : jpred) : bool :=
   existsb (col_has schs ts is_neg_zero) (key_cols w).
+
+(** * The side conditions of the C11 theorems, decided (soundness: Proofs/JoinProofs.v) *)
+
+Definition coltype_eqb (a b : coltype) : bool :=
+  match a, b with TInt, TInt | TFloat, TFloat | TStr, TStr => true | _, _ => false end.
+
+Definition val_okb (ty : coltype) (v : value) : bool :=
+  match v with
+  | VNull => true
+  | VInt z => coltype_eqb ty TInt && (min_int32 <=? z)%Z && (z <=? max_int32)%Z
+  | VFloat u => coltype_eqb ty TFloat && negb (f_is_nan u)
+  | VStr _ => coltype_eqb ty TStr
+  end.
+
+Definition row_okb (sch : schema) (r : row) : bool :=
+  Nat.eqb (length r) (length sch) &&
+  forallb (fun c => val_okb (col_type sch c) (nth c r VNull)) (seq 0 (length sch)).
+
+Definition tables_wfb (schs : list schema) (ts : list table) : bool :=
+  Nat.eqb (length ts) (length schs) &&
+  forallb (fun i => forallb (row_okb (nth i schs [])) (nth i ts [])) (seq 0 (length schs)).
+
+Definition lits_okb (sch : schema) (p : pred) : bool :=
+  forallb (fun x => negb (is_null (c3lit x)) && val_okb (col_type sch (c3col x)) (c3lit x)) (cmps p).
+
+Definition filters_okb (schs : list schema) (ts : list table) (w : jpred) : bool :=
+  forallb (fun i => lits_okb (nth i schs []) (table_pred (widths schs) i w) &&
+                    negb (stmt_hits_bad (table_pred (widths schs) i w) (nth i ts [])))
+          (seq 0 (length schs)).
+
+Definition indexed_okb (schs : list schema) (ts : list table) : bool :=
+  forallb (fun i => negb (has_null_in_indexed_col (nth i schs []) (nth i ts []))) (seq 0 (length schs)).
+
+Definition scopedb (schs : list schema) (w : jpred) (sl : list nat) : bool :=
+  forallb (fun c => c <? total (widths schs)) (jpred_cols w ++ sl).
+
+Definition conds_okb (schs : list schema) (w : jpred) : bool :=
+  forallb (fun e => coltype_eqb (gcol_type schs (fst e)) (gcol_type schs (snd e))) (jeqs w).
+
+(** all side conditions of [every_candidate_equiv], executable *)
+Definition join_hyps_ok (schs : list schema) (ts : list table) (w : jpred) (sl : list nat) : bool :=
+  tables_wfb schs ts && scopedb schs w sl && conds_okb schs w && filters_okb schs ts w &&
+  indexed_okb schs ts && negb (has_null_key schs ts w).
+
